@@ -106,6 +106,7 @@ type SimRequest struct {
 	Applied  bool
 	Err      error
 	Finished int64 // virtual time at which the callback ran (0 = never)
+	IssuedOrder, FinishedOrder int // global event order stamps
 	Cancelled bool
 
 	done   bool
@@ -163,6 +164,7 @@ type SimCluster struct {
 	Requests []*SimRequest
 	Writes   []SimWrite
 	reqSeq   int
+	order    int
 	agents   []*simAgent
 	DcpConfigs []DCPConfig
 }
@@ -570,6 +572,10 @@ func (r *SimRequest) complete(res any, err error) {
 	}
 	r.Err = err
 	r.Finished = vrt.NowNanos()
+	if r.ag != nil {
+		r.ag.c.order++
+		r.FinishedOrder = r.ag.c.order
+	}
 	r.finish(res, err)
 }
 
@@ -588,6 +594,8 @@ func (ag *simAgent) dispatch(r *SimRequest) (PendingOp, error) {
 	r.ID = c.reqSeq
 	r.Agent = ag.kind
 	r.Issued = vrt.NowNanos()
+	c.order++
+	r.IssuedOrder = c.order
 	r.ag = ag
 	c.Requests = append(c.Requests, r)
 	if c.OnDispatch != nil {
